@@ -643,8 +643,9 @@ def _run_conv(case, ctx):
 
     def check_same(got, which):
         got = np.asarray(got)
-        if ctx.check(got.shape == Es.shape and got.dtype.kind in "fiu", ksame, lambda: f"'same' shape {got.shape}, expected {Es.shape}; nsx={nsx} "
-                                                          f"nsw={nsw} true padded size {pad} ({which})"):
+        if ctx.check(got.shape == Es.shape and got.dtype.kind in "fiu", ksame,
+                     lambda: f"'same' shape {got.shape} dtype {got.dtype}, expected {Es.shape}; nsx={nsx} nsw={nsw} true padded "
+                             f"size {pad} ({which})"):
             err = float(np.max(np.abs(got - Es) / scale))
             if not (err <= tol):
                 err = float("inf") if err != err else err
